@@ -52,3 +52,70 @@ func TestToy(t *testing.T) {
 		}
 	}
 }
+
+// Two tasks rendezvous over an unbuffered channel and a WaitGroup-like done
+// channel; the blocking operations are bracketed with BlockBegin/BlockEnd.
+func runBlocking(seed uint64, mode int) (uint64, int, bool) {
+	tape := NewTape(seed)
+	s := NewSched(tape, Config{Mode: mode, Latency: LatUniform})
+	ch := make(chan int)
+	done := make(chan struct{})
+	sum := 0
+	prod := func(t *Task) {
+		for i := 1; i <= 3; i++ {
+			s.Yield(KindIO, "call", true)
+			s.BlockBegin("send")
+			ch <- i
+			s.BlockEnd()
+		}
+		s.BlockBegin("close")
+		close(done)
+		s.BlockEnd()
+	}
+	cons := func(t *Task) {
+		for i := 0; i < 3; i++ {
+			s.BlockBegin("recv")
+			v := <-ch
+			s.BlockEnd()
+			sum += v
+			s.Yield(KindIO, "call", true)
+		}
+	}
+	waiter := func(t *Task) {
+		s.BlockBegin("wait")
+		<-done
+		s.BlockEnd()
+	}
+	ok := s.Run([]func(*Task){prod, cons, waiter})
+	return s.Hash, sum, ok
+}
+
+func TestBlocking(t *testing.T) {
+	for mode := 0; mode < NumModes; mode++ {
+		for seed := uint64(1); seed <= 30; seed++ {
+			h1, s1, ok1 := runBlocking(seed, mode)
+			h2, s2, ok2 := runBlocking(seed, mode)
+			if !ok1 || !ok2 || s1 != 6 || s2 != 6 {
+				t.Fatalf("mode %d seed %d: ok=%v,%v sum=%d,%d", mode, seed, ok1, ok2, s1, s2)
+			}
+			if h1 != h2 {
+				t.Fatalf("mode %d seed %d: schedules differ %x %x", mode, seed, h1, h2)
+			}
+		}
+	}
+}
+
+func TestDeadlockDetected(t *testing.T) {
+	tape := NewTape(7)
+	s := NewSched(tape, Config{Mode: ModeUniform})
+	ch := make(chan int)
+	fn := func(*Task) {
+		s.BlockBegin("recv")
+		<-ch
+		s.BlockEnd()
+	}
+	quick := func(*Task) { s.Yield(KindOp, "x", false) }
+	if s.Run([]func(*Task){fn, quick}) || !s.Deadlock {
+		t.Fatalf("deadlock not detected")
+	}
+}
